@@ -16,6 +16,7 @@ import SfProps.C04Ircam
 import SfProps.C04Svx
 import SfProps.C04Nist
 import SfProps.C04Mat5
+import SfProps.C04Voc
 namespace Sf.C04Bridge2
 open Sf Sf.AbsWrite Sf.AbsWriteBridge Sf.C04Bridge
 open Sf.AbsWriteBridge.Small (Cont Laws Valid small2Cont laws_of_small2 small2_machine_facts small_pred_good)
@@ -348,5 +349,104 @@ theorem mat5_facts (c : Mat5.Cfg) (hwf : c.wf) :
 theorem mat5_session_accepted (c : Mat5.Cfg) (hwf : c.wf) (ty : Ty) (stale stale' : Nat) (ops : List Small.Op) (hv : Valid c.ch ty ops) :
     accepted (Small.recordOf (small2Cont (Mat5.fmt c) Mat5.parse (mat5Geom c) (encFor c.codec (!c.little))) ty stale stale' ops) = true :=
   cont_session_accepted _ _ (laws_of_small2 (mat5_facts c hwf)) ty stale stale' ops hv trivial (fun _ _ _ => trivial)
+
+/-! ## VOC (PCM_U8 / PCM_16 / ULAW / ALAW, one or two channels; `voc_close` appends the terminator block: closed file ≠ update image) -/
+
+def vocGeom (c : Voc.Cfg) : AbsWrite.Geom := { word := 0x080000 + c.codec, ch := c.ch, sr := c.sr }
+
+/-- the VOC container as the bridge sees it: `Voc.closedBytes` (header recomputed with the terminator's offset as data end, audio,
+    terminator byte), the store of the `Small2` session machine, `Voc.parse` -/
+def vocCont (c : Voc.Cfg) : Cont :=
+  { small2Cont (Voc.fmt c) Voc.parse (vocGeom c) (encFor c.codec false) with closed := Voc.closedBytes c }
+
+/-- the guard of `voc_reopen_info`: the 3-byte block length -/
+def vocGuard (D : Nat) : Prop := D + 14 < 2 ^ 24
+
+/-- the rate clause for the type 9 block (every encoding but PCM_U8): the rate is stored as a 32-bit number, exact; VOC's class in
+    the predicate is `.divisor` (1 MHz / (256 − divisor), the PCM_U8 block), whose tolerance an exact answer meets trivially -/
+theorem voc_rate_ok9 (c : Voc.Cfg) (h5 : c.codec ≠ 5) : rateOk 0x08 c.sr ((Voc.quant c : Nat) : Int) = true := by
+  rw [C04Voc.voc_rate_exact9 c h5]
+  have hc : rateClass 0x08 = .divisor := by decide
+  unfold rateOk; rw [hc]; simp
+
+theorem voc_laws (c : Voc.Cfg) (hwf : c.wf) (hrate : rateOk 0x08 c.sr ((Voc.quant c : Nat) : Int) = true) :
+    Laws (vocCont c) (guardOf ((encFor c.codec false).nbytes * (vocGeom c).ch) vocGuard) := by
+  have hwf0 := hwf
+  obtain ⟨hcd, hch, hsr1, hsr2⟩ := hwf
+  obtain ⟨m1, m2, m3⟩ := small2_machine_facts (Voc.fmt c) (Sf.Voc.lawful c) rfl
+  have hcodec : (vocGeom c).codec = c.codec := by
+    show (0x080000 + c.codec) % 0x10000 = c.codec
+    rcases hcd with h | h | h | h <;> omega
+  have hmajor : (vocGeom c).major = 0x08 := by
+    show (0x080000 + c.codec) / 0x10000 % 0x1000 = 0x08
+    rcases hcd with h | h | h | h <;> omega
+  have henc : encOf .raw c.codec false = some (encFor c.codec false) := by
+    unfold encFor; rcases hcd with h | h | h | h <;> rw [h] <;> simp [encOf]
+  have hnbw : (encFor c.codec false).nbytes = Voc.bytewidth c.codec := by
+    unfold encFor; rcases hcd with h | h | h | h <;> rw [h] <;> simp [encOf, Enc.nbytes, PcmFmt.nbytes, Voc.bytewidth]
+  have hbw : (encFor c.codec false).nbytes * (vocGeom c).ch = c.bw := by rw [hnbw]; rfl
+  obtain ⟨hnb, hewf⟩ := encOf_props _ _ _ _ henc
+  have hchpos : 0 < (vocGeom c).ch := by show 0 < c.ch; rcases hch with h | h <;> omega
+  have hblock : (vocGeom c).block = 1 := C04.frames_bound_granular _ _ _ _
+    (by rw [hcodec]; rcases hcd with h | h | h | h <;> rw [h] <;> simp [Geometry.sampleGranular]) (by rw [hmajor]; simp)
+  -- the update images: the Small2 machine of `Voc.fmt`
+  have X : Small.Small2Facts (Voc.fmt c) Voc.parse (vocGeom c) (encFor c.codec false)
+      (guardOf ((encFor c.codec false).nbytes * (vocGeom c).ch) vocGuard) := by
+    refine { chpos := hchpos, nb := hnb, wf := hewf, block := hblock, notRaw := by rw [hmajor]; simp,
+             codec := ⟨_, by rw [hcodec]; exact henc⟩, snapForm := m1, closedIsSnap := m2, snapFn := m3, snapParse := ?_,
+             Gdata := fun a b e h => by unfold guardOf at *; rw [← e]; exact h }
+    intro st ops hg
+    rw [hbw] at hg ⊢
+    have e := m3 st st ops [.write (Small2.opsData ops) false] (by simp [Small2.opsData])
+    obtain ⟨h1, _⟩ := C04Voc.voc_snapshot_valid c hwf0 st [.write (Small2.opsData ops) false] (whole_single _ _ hg.1)
+      (by simpa [Small2.opsData, vocGuard] using hg.2)
+    have e' : Small2.snapshotBytes (Voc.fmt c) st [.write (Small2.opsData ops) false] = Voc.snapshotBytes c st [.write (Small2.opsData ops) false] := rfl
+    rw [← e', ← e] at h1
+    refine ⟨_, h1, by simp [Small2.opsData], rfl, rfl, ?_⟩
+    rw [hmajor]; exact hrate
+  have L2 := laws_of_small2 X
+  have hK : ∀ st ops, (vocCont c).store st ops = (small2Cont (Voc.fmt c) Voc.parse (vocGeom c) (encFor c.codec false)).store st ops := fun _ _ => rfl
+  have sF : ∀ st ops, guardOf ((encFor c.codec false).nbytes * (vocGeom c).ch) vocGuard ops → Small.EndsInRewrite ops →
+      ∃ hdr tail, hdr.length = c.hdrLen ∧ (vocCont c).store st ops = hdr ++ Small2.opsData ops ++ tail := L2.storeForm
+  have sP : ∀ st ops, guardOf ((encFor c.codec false).nbytes * (vocGeom c).ch) vocGuard ops → Small.EndsInRewrite ops →
+      ∃ i, Voc.parse ((vocCont c).store st ops) = .ok i ∧ i.frames = (Small2.opsData ops).length / ((encFor c.codec false).nbytes * (vocGeom c).ch) ∧
+        i.ch = (vocGeom c).ch ∧ i.fmt % 0x10000000 = (vocGeom c).word % 0x10000000 := L2.storeParse
+  refine ⟨L2.chpos, L2.nb, L2.wf, L2.block, L2.notRaw, L2.codec, ?_, ?_, ?_, sF, sP⟩
+  · intro st ops _
+    exact ⟨_, [0], Sf.Voc.hdr_length c _, by show Voc.closedBytes c st ops = _; rw [C04Voc.closed_eq, List.append_assoc]⟩
+  · intro st ops hg
+    have hg' := hg
+    show ∃ i, Voc.parse (Voc.closedBytes c st ops) = Small2.ParseRes.ok i ∧
+      i.frames = (Small2.opsData ops).length / ((encFor c.codec false).nbytes * (vocGeom c).ch) ∧ i.ch = (vocGeom c).ch ∧
+      i.fmt % 0x10000000 = (vocGeom c).word % 0x10000000 ∧ rateOk (vocGeom c).major (vocGeom c).sr (i.sr : Int) = true
+    rw [hbw] at hg' ⊢
+    have e := C04Voc.voc_updates_dont_change_file c st ops
+    have h1 := C04Voc.voc_reopen_info c hwf0 st [.write (Small2.opsData ops) false] (whole_single _ _ hg'.1)
+      (by simpa [Small2.opsData, vocGuard] using hg'.2)
+    rw [← e] at h1
+    refine ⟨_, h1, by simp [Small2.opsData], rfl, rfl, ?_⟩
+    rw [hmajor]; exact hrate
+  · intro a b ops ops' h
+    show Voc.closedBytes c a ops = Voc.closedBytes c b ops'
+    rw [C04Voc.closed_eq, C04Voc.closed_eq, h]
+
+/-- VOC: every job of whole frames is accepted under the guard of the 3-byte block length, asked of the finished file and of every
+    crash image; `hrate` is the `.divisor` clause on the model's quantiser — free for the type 9 block (`voc_rate_ok9`), the
+    tolerance of the one-byte divisor for PCM_U8 -/
+theorem voc_session_accepted (c : Voc.Cfg) (hwf : c.wf) (hrate : rateOk 0x08 c.sr ((Voc.quant c : Nat) : Int) = true)
+    (ty : Ty) (stale stale' : Nat) (ops : List Small.Op) (hv : Valid c.ch ty ops)
+    (hguard : vocGuard ((Small.sampleList ops).length * (encFor c.codec false).nbytes)) :
+    accepted (Small.recordOf (vocCont c) ty stale stale' ops) = true := by
+  apply guarded_session_accepted (vocCont c) vocGuard (voc_laws c hwf hrate) ty stale stale' ops hv
+  intro p post e
+  have : (Small.sampleList p).length ≤ (Small.sampleList ops).length := by rw [e, Small.sampleList_append]; simp
+  have h2 := Nat.mul_le_mul_right (encFor c.codec false).nbytes this
+  unfold vocGuard at *
+  show _ + 14 < 2 ^ 24
+  exact Nat.lt_of_le_of_lt (Nat.add_le_add_right h2 14) hguard
+
+/-- the PCM_U8 divisor clause at the campaign's rates (one and two channels), by evaluation -/
+theorem voc_rate_clause_u8 : ∀ sr ∈ [1, 3906, 3907, 4000, 8000, 11025, 22050, 44100, 48000, 96000, 200000, 200001, 1000000, 2 ^ 31 - 1], ∀ ch ∈ [1, 2],
+    rateOk 0x08 sr ((Voc.quant ⟨5, ch, sr⟩ : Nat) : Int) = true := by decide
 
 end Sf.C04Bridge2
